@@ -354,10 +354,11 @@ class Ref(object):
     """mode 'exact'  : every terminal (and ignore) occurrence may use any of its match lengths
        mode 'longest': every occurrence restricted to the longest match at its position"""
     def __init__(self, g, text, mode='exact', keep_all=False, placeholders=True, term_prio=False, start='start', cap=2000,
-                 concrete=None):
+                 concrete=None, spans=False):
         self.g = g; self.text = text; self.mode = mode; self.n = len(text)
         self.keep_all = keep_all; self.placeholders = placeholders; self.term_prio = term_prio
         self.start = start; self.cap = cap
+        self.spans = spans      # nodes become ('N', name, kids, (start, end)|None): extent of all tokens the rule matched, filtered ones included
         self.c = concrete or Concrete(g)
         self.rules = self.c.rules
         self.terms = Terms(g, text)
@@ -547,7 +548,7 @@ class Ref(object):
                     if k == 't': kept = keep or not x[1].startswith('_')
                     elif k == 'lit': kept = keep
                     else: kept = True
-                    ch = (('T', name, self.text[i:e], i),) if kept else ()
+                    ch = (('T', name, self.text[i:e], i),) if kept else ((('F', i, e),) if self.spans else ())
                     pr = frozenset([prio if self.term_prio else 0])
                     out[ch] = out[ch] | pr if ch in out else pr
             return out
@@ -647,10 +648,13 @@ class Ref(object):
                 if not self.feas(a['items'], 0, i, j): continue
                 for kids, prios in self.d_seq(a['items'], 0, i, j, keep).items():
                     prios = frozenset(p + rp for p in prios)
+                    real = tuple(k for k in kids if k is None or k[0] != 'F') if self.spans else kids
                     if r['inline']:
                         ch = kids
-                    elif r['expand1'] and not a.get('alias') and len(kids) == 1:
-                        ch = kids
+                    elif r['expand1'] and not a.get('alias') and len(real) == 1:
+                        ch = kids       # in spans mode the filtered siblings stay visible to the parent's extent
+                    elif self.spans:
+                        ch = (('N', a.get('alias') or r['display'], real, _extent(kids)),)
                     else:
                         ch = (('N', a.get('alias') or r['display'], kids),)
                     out[ch] = out[ch] | prios if ch in out else prios
@@ -667,6 +671,7 @@ class Ref(object):
         for p in sorted(self.after(0)):
             if self.n in self.T[self.start][p]:
                 for ch, pr in self.d_rule(self.start, p, self.n).items():
+                    if self.spans: ch = tuple(k for k in ch if k is None or k[0] != 'F')
                     key = ch[0] if len(ch) == 1 else ('SPLICE', ch)
                     out[key] = out[key] | pr if key in out else pr
         return out
@@ -781,6 +786,21 @@ class Ref(object):
                 if not cur: break
             return res
         raise ValueError(x)
+
+
+def _extent(kids):
+    lo = hi = None
+    for k in kids:
+        if k is None: continue
+        if k[0] == 'T': a, b = k[3], k[3] + len(k[2])
+        elif k[0] == 'F': a, b = k[1], k[2]
+        elif k[0] == 'N':
+            if k[3] is None: continue
+            a, b = k[3]
+        else: continue
+        if lo is None or a < lo: lo = a
+        if hi is None or b > hi: hi = b
+    return None if lo is None else (lo, hi)
 
 
 # ------------------------------------------------------------------------ normalising lark results
